@@ -470,3 +470,176 @@ TWINS += [
     {"name": "history:defaults-copied-item-by-item", "edits": [(T, _MERGE_DEFAULTS, "            for key, default in (rule.defaults or {}).items():\n                result[key] = default")]},
     {"name": "string:quantifier-chosen-by-early-branches", "edits": [(C, _UNICODE_INIT, "        if length is not None:\n            length_regex = f\"{{{int(length)}}}\"\n        elif maxlength is not None:\n            length_regex = f\"{{{int(minlength)},{int(maxlength)}}}\"\n        else:\n            length_regex = f\"{{{int(minlength)},}}\"\n        self.regex = f\"[^/]{length_regex}\"\n")]},
 ]
+
+# ---- stress round: library spellings of the same operation around the newest clauses (R4.2 text transform / padding,
+# R4.7 selection, R4.8 match result)
+_IMP_C = "from urllib.parse import quote\n"
+_SUITABLE_ARGS = "        for key in self.arguments:\n            if key not in defaults and key not in values:\n                return False\n"
+_SUITABLE_DEFAULTS_LOOP = "            for key, value in defaults.items():\n                if key in values and value != values[key]:\n                    return False\n"
+_NUM_TO_URL_BODY = "        value_str = str(self.num_convert(value))\n" + _ZFILL
+
+
+def _partial_quote(safe: str) -> list:
+    return [(C, _IMP_C, "from functools import partial\n" + _IMP_C + "\n_quote_segment = partial(quote, safe=" + safe + ")\n"), (C, _CONV_QUOTE, "        return _quote_segment(str(value))")]
+
+
+def _from_bytes(enc: str) -> list:
+    return [(C, _IMP_C, _IMP_C + "from urllib.parse import quote_from_bytes\n"), (C, _CONV_QUOTE, f"        return quote_from_bytes(str(value).encode({enc}), safe=" + _SAFE + ")")]
+
+
+def _sentinel_get(test: str) -> list:
+    return [(R, "    def suitable_for(", "    _MISSING = object()\n\n    def suitable_for("),
+            (R, _SUITABLE_DEFAULTS_LOOP, f"            for key, value in defaults.items():\n                given = values.get(key, self._MISSING)\n                if {test}:\n                    return False\n")]
+
+
+def _chainmap(expr: str) -> list:
+    return [(T, _IMP_T, "from collections import ChainMap\n" + _IMP_T), (T, _MERGE_DEFAULTS, f"            if rule.defaults:\n                result = dict({expr})")]
+
+
+_PARTIAL_GEN = (
+    "        candidates = (\n"
+    "            (built[0], built[1], rule.websocket)\n"
+    "            for rule in self.map._rules_by_endpoint.get(endpoint, ())\n"
+    "            if rule.suitable_for(values, method)\n"
+    "            and (built := rule.build(values, append_unknown)) is not None\n"
+    "        )\n"
+    "\n"
+    "        if not self.map.host_matching:\n"
+    "            return next(candidates, None)\n"
+    "\n"
+    "        first_match = None\n"
+    "\n"
+    "        for rv in candidates:\n"
+    "            if rv[0] == self.server_name:\n"
+    "                return rv\n"
+    "            if first_match is None:\n"
+    "                first_match = rv\n"
+)
+_PARTIAL_WHOLE = "        first_match = None\n\n" + _PARTIAL_LOOP
+TWINS += [
+    {"name": "stress:to-url-through-a-hoisted-partial", "edits": _partial_quote(_SAFE)},
+    {"name": "stress:to-url-quote-from-bytes-of-the-utf8-text", "edits": _from_bytes("\"utf-8\"")},
+    {"name": "stress:to-url-quote-from-bytes-default-encoding", "edits": _from_bytes("")},
+    {"name": "stress:number-to-url-zfill-of-digits-or-zero", "edits": [(C, _NUM_TO_URL_BODY, "        return str(self.num_convert(value)).zfill(self.fixed_digits or 0)")]},
+    {"name": "stress:suitable-for-arguments-as-a-subset-test", "edits": [(R, _SUITABLE_ARGS, "        if not self.arguments.issubset(set(defaults) | set(values)):\n            return False\n")]},
+    {"name": "stress:suitable-for-arguments-minus-key-views", "edits": [(R, _SUITABLE_ARGS, "        if self.arguments - values.keys() - set(defaults):\n            return False\n")]},
+    {"name": "stress:suitable-for-get-with-a-private-sentinel", "edits": _sentinel_get("given is not self._MISSING and given != value")},
+    {"name": "stress:match-result-through-a-chainmap", "edits": _chainmap("ChainMap(rule.defaults, result)")},
+    {"name": "stress:partial-build-candidates-from-a-generator", "edits": [(M, _PARTIAL_WHOLE, _PARTIAL_GEN)]},
+    {"name": "stress:matcher-head-and-rest-unpacked", "edits": [
+        (T, "            part = parts[0]\n", "            part, *rest = parts\n"), (T, "                rv = _match(state.static[part], parts[1:], values)\n", "                rv = _match(state.static[part], rest, values)\n"), (T, "                remaining = parts[1:]\n", "                remaining = rest\n")]},
+]
+MUTANTS += [
+    {"name": "stress:hoisted-partial-keeps-question-mark-raw", "expect": "R4.1", "edits": _partial_quote("\"!$&'()*+,/:;=?@\"")},
+    {"name": "stress:quote-from-bytes-of-latin-1-text", "expect": "R4.2", "edits": _from_bytes("\"latin-1\", \"replace\"")},
+    {"name": "stress:number-to-url-zfill-of-zero", "expect": "R4.2", "edits": [(C, _NUM_TO_URL_BODY, "        return str(self.num_convert(value)).zfill(0 and self.fixed_digits)")]},
+    {"name": "stress:suitable-for-subset-test-forgets-the-defaults", "expect": "R4.3", "edits": [(R, _SUITABLE_ARGS, "        if not self.arguments.issubset(set(values)):\n            return False\n")]},
+    {"name": "stress:suitable-for-sentinel-test-inverted", "expect": "R4.7", "edits": _sentinel_get("given is not self._MISSING and given == value")},
+    {"name": "stress:chainmap-without-the-defaults", "expect": "R4.4", "edits": _chainmap("ChainMap(result)")},
+    {"name": "stress:partial-build-generator-keeps-the-last-other-host", "expect": "R4.7", "edits": [(M, _PARTIAL_WHOLE, _PARTIAL_GEN.replace("            if first_match is None:\n                first_match = rv\n", "            first_match = rv\n"))]},
+]
+
+# spellings of a call: keyword for the first parameter, the unbound method, the explicit base-class call, format()
+_FLOAT_SUPER = "        super().__init__(map, min=min, max=max, signed=signed)  # type: ignore"
+_ZFILL_CALL = "            value_str = value_str.zfill(self.fixed_digits)\n"
+TWINS += [
+    {"name": "stress:uuid-to-python-with-hex-keyword", "edits": [(C, "        return uuid.UUID(value)", "        return uuid.UUID(hex=value)")]},
+    {"name": "stress:uuid-to-url-with-format", "edits": [(C, _UUID_TO_URL, "    def to_url(self, value: uuid.UUID) -> str:\n        return format(value)")]},
+    {"name": "stress:quote-with-string-keyword", "edits": [(C, _CONV_QUOTE, "        return quote(string=str(value), safe=" + _SAFE + ")")]},
+    {"name": "stress:zfill-as-unbound-str-method", "edits": [(C, _ZFILL_CALL, "            value_str = str.zfill(value_str, self.fixed_digits)\n")]},
+    {"name": "stress:float-init-calls-the-base-class-explicitly", "edits": [(C, _FLOAT_SUPER, "        NumberConverter.__init__(self, map, 0, min, max, signed)  # type: ignore")]},
+]
+MUTANTS += [
+    {"name": "stress:quote-with-string-keyword-of-lowered-text", "expect": "R4.2", "edits": [(C, _CONV_QUOTE, "        return quote(string=str(value).lower(), safe=" + _SAFE + ")")]},
+    {"name": "stress:unbound-zfill-one-digit-short", "expect": "R4.2", "edits": [(C, _ZFILL_CALL, "            value_str = str.zfill(value_str, self.fixed_digits - 1)\n")]},
+    {"name": "stress:explicit-base-init-drops-signed", "expect": "R4.2", "edits": [(C, _FLOAT_SUPER, "        NumberConverter.__init__(self, map, 0, min, max)  # type: ignore")]},
+    {"name": "stress:uuid-hex-keyword-to-python-skips-conversion", "expect": "R4.2", "edits": [(C, "        return uuid.UUID(value)", "        return uuid.UUID(hex=value) and value")]},
+]
+
+_RULE_BUILD_TRY = "        try:\n            if append_unknown:\n                return self._build_unknown(**values)\n            else:\n                return self._build(**values)\n        except ValidationError:\n            return None\n"
+
+
+def _build_suppress(test: str) -> list:
+    return [(R, _IMP_R, "import ast\nimport contextlib\nimport re\n"), (R, _RULE_BUILD_TRY, f"        with contextlib.suppress(ValidationError):\n            if {test}:\n                return self._build_unknown(**values)\n            return self._build(**values)\n        return None\n")]
+
+
+TWINS += [
+    {"name": "stress:rule-build-with-contextlib-suppress", "edits": _build_suppress("append_unknown")},
+    {"name": "stress:match-result-as-a-dict-comprehension", "edits": [(T, _RESULT_INIT + "\n                try:\n                    value = rule._converters[name].to_python(value)\n                except ValidationError:\n                    raise NoMatch(have_match_for, websocket_mismatch) from None\n                result[str(name)] = value\n",
+        "            try:\n                result = {\n                    str(name): rule._converters[name].to_python(value)\n                    for name, value in zip(rule._converters.keys(), values)\n                }\n            except ValidationError:\n                raise NoMatch(have_match_for, websocket_mismatch) from None\n")]},
+    {"name": "stress:match-defaults-merged-under-a-copy", "edits": [(T, _MERGE_DEFAULTS, "            if rule.defaults:\n                merged = rule.defaults.copy()\n                merged.update((k, v) for k, v in result.items() if k not in merged)\n                result = merged")]},
+]
+MUTANTS += [
+    {"name": "stress:rule-build-suppress-picks-the-other-builder", "expect": "R4.5", "edits": _build_suppress("not append_unknown")},
+    {"name": "stress:match-defaults-merged-into-the-rule-s-own-mapping", "expect": "R4.8", "edits": [(T, _MERGE_DEFAULTS, "            if rule.defaults:\n                merged = rule.defaults\n                merged.update((k, v) for k, v in result.items() if k not in merged)\n                result = merged")]},
+]
+
+# fresh refactorings of the stress round that failed at first (q03: keyword spelling of uuid.UUID -> false alarm of R4.4;
+# q05: types.MethodType instead of __get__ -> not understood)
+_IMP_TYPES = "from types import CodeType\n"
+_BIND_BUILDERS = (
+    "        self._build = self._compile_builder(False).__get__(self, None)\n"
+    "        self._build_unknown: t.Callable[..., tuple[str, str]]\n"
+    "        self._build_unknown = self._compile_builder(True).__get__(self, None)\n"
+)
+
+
+def _method_type(first: str, second: str) -> list:
+    return [(R, _IMP_TYPES, _IMP_TYPES + "from types import MethodType\n"), (R, _BIND_BUILDERS,
+        f"        self._build = MethodType(self._compile_builder({first}), self)\n"
+        "        self._build_unknown: t.Callable[..., tuple[str, str]]\n"
+        f"        self._build_unknown = MethodType(self._compile_builder({second}), self)\n")]
+
+
+_UUID_RX = "    regex = (\n        r\"[A-Fa-f0-9]{8}-[A-Fa-f0-9]{4}-\"\n        r\"[A-Fa-f0-9]{4}-[A-Fa-f0-9]{4}-[A-Fa-f0-9]{12}\"\n    )\n"
+_TABLE = (
+    "DEFAULT_CONVERTERS: t.Mapping[str, type[BaseConverter]] = {\n    \"default\": UnicodeConverter,\n    \"string\": UnicodeConverter,\n    \"any\": AnyConverter,\n"
+    "    \"path\": PathConverter,\n    \"int\": IntegerConverter,\n    \"float\": FloatConverter,\n    \"uuid\": UUIDConverter,\n}\n"
+)
+_TABLE_CALL = (
+    "DEFAULT_CONVERTERS: t.Mapping[str, type[BaseConverter]] = dict(\n    default=UnicodeConverter,\n    string=UnicodeConverter,\n    any=AnyConverter,\n"
+    "    path=PathConverter,\n    int=IntegerConverter,\n    float=FloatConverter,\n    uuid=UUIDConverter,\n)\n"
+)
+TWINS += [
+    {"name": "fresh:q05-builders-bound-with-methodtype-and-compile-cleanup", "edits": _method_type("False", "True") + [
+        (R, _DOMAIN_RULE + "        self._parts = []\n        self._trace = []\n        self._converters = {}\n        if domain_rule == \"\":\n            self._parts = [\n",
+            "        domain_rule = self.host if self.map.host_matching else self.subdomain\n        self._parts, self._trace, self._converters = [], [], {}\n        if not domain_rule:\n            self._parts = [\n"),
+        (R, "        globs: dict[str, t.Any] = {}\n        locs: dict[str, t.Any] = {}\n        exec(code, globs, locs)\n        return locs[name]  # type: ignore", "        namespace: dict[str, t.Any] = {}\n        exec(code, {}, namespace)\n        return namespace[name]  # type: ignore"),
+        (R, "        return (1 if self.alias else 0, -len(self.arguments), -len(self.defaults or ()))", "        alias_rank = int(bool(self.alias))\n        num_defaults = len(self.defaults) if self.defaults else 0\n        return (alias_rank, -len(self.arguments), -num_defaults)"),
+    ]},
+    {"name": "fresh:q03-uuid-hex-keyword-joined-regex-table-as-dict-call", "edits": [
+        (C, _FLOAT_SUPER, "        super().__init__(map, 0, min, max, signed)  # type: ignore\n\n\n_HEX_DIGIT = \"[A-Fa-f0-9]\"\n_UUID_GROUP_LENGTHS = (8, 4, 4, 4, 12)"),
+        (C, _UUID_RX, "    regex = \"-\".join(f\"{_HEX_DIGIT}{{{n}}}\" for n in _UUID_GROUP_LENGTHS)\n"),
+        (C, "        return uuid.UUID(value)", "        return uuid.UUID(hex=value)"),
+        (C, _TABLE, _TABLE_CALL),
+    ]},
+]
+MUTANTS += [
+    {"name": "fresh:methodtype-binds-the-builders-crosswise", "expect": "R4.5", "edits": _method_type("True", "False")},
+    {"name": "fresh:uuid-regex-joined-with-one-group-short", "expect": "R4.2", "edits": [
+        (C, _FLOAT_SUPER, _FLOAT_SUPER + "\n\n\n_HEX_DIGIT = \"[A-Fa-f0-9]\"\n_UUID_GROUP_LENGTHS = (8, 4, 4, 12)"),
+        (C, _UUID_RX, "    regex = \"-\".join(f\"{_HEX_DIGIT}{{{n}}}\" for n in _UUID_GROUP_LENGTHS)\n"),
+        (C, "        return uuid.UUID(value)", "        return uuid.UUID(hex=value)"),
+    ]},
+    {"name": "fresh:table-as-dict-call-binds-uuid-to-the-text-converter", "expect": "R4.2", "edits": [(C, _TABLE, _TABLE_CALL.replace("uuid=UUIDConverter", "uuid=UnicodeConverter"))]},
+]
+
+_GROUPS = (
+    "                    converter_groups = sorted(\n                        match.groupdict().items(), key=lambda entry: entry[0]\n                    )\n"
+    "                    groups = [\n                        value\n                        for key, value in converter_groups\n                        if key[:11] == \"__werkzeug_\"\n                    ]\n"
+)
+_HOST_TAIL = "        if domain_part is None:\n            subdomain = self.subdomain\n        else:\n            subdomain = domain_part\n\n        if subdomain:\n            return f\"{subdomain}.{self.server_name}\"\n        else:\n            return self.server_name\n"
+
+
+def _groups_by_sorted_names(order: str) -> list:
+    return [(T, _GROUPS, f"                    named = match.groupdict()\n                    groups = [\n                        named[key] for key in {order} if key.startswith(\"__werkzeug_\")\n                    ]\n")]
+
+
+TWINS += [
+    {"name": "stress:matcher-groups-looked-up-by-sorted-names", "edits": _groups_by_sorted_names("sorted(named)")},
+    {"name": "stress:get-host-joins-the-non-empty-labels", "edits": [(M, _HOST_TAIL, "        subdomain = domain_part if domain_part is not None else self.subdomain\n        return \".\".join(filter(None, (subdomain, self.server_name)))\n")]},
+]
+MUTANTS += [
+    {"name": "stress:matcher-groups-by-sorted-names-yield-the-names", "expect": "R4.4", "edits": [(T, _GROUPS, "                    named = match.groupdict()\n                    groups = [\n                        key for key in sorted(named) if key.startswith(\"__werkzeug_\")\n                    ]\n")]},
+    {"name": "stress:get-host-joins-the-labels-the-other-way-round", "expect": "R4.7", "edits": [(M, _HOST_TAIL, "        subdomain = domain_part if domain_part is not None else self.subdomain\n        return \".\".join(filter(None, (self.server_name, subdomain)))\n")]},
+]
